@@ -309,24 +309,33 @@ def construct(ctx, f, cfg, ro):
 # --------------------------------------------------------------------------------------------------------------------------------
 def _last_def_of_ret(b, sl, blocks):
     """origin atoms of the value assigned to _0 last on the given block path"""
+    tgt = 0       # the local whose last definition on the path is looked for; a plain move (`_0 = move _7`, the return of an
+    #               inlined helper) hands the search on to the source local
     for bi in reversed(blocks):
         blk = b.blocks[bi]
         t = blk["term"]
-        if t and t["k"] == "call" and not t["dest"]["p"] and t["dest"]["l"] == 0 and bi != blocks[-1]:
+        if t and t["k"] == "call" and not t["dest"]["p"] and t["dest"]["l"] == tgt and bi != blocks[-1]:
             a = {"call:" + callee_def(t)}
             for x in t["args"]:
                 a |= sl.of_operand(x)
             return a
         for s in reversed(blk["stmts"]):
-            if s["k"] == "assign" and s["lhs"]["l"] == 0 and not s["lhs"]["p"]:
+            if s["k"] == "assign" and s["lhs"]["l"] == tgt and not s["lhs"]["p"]:
+                rv = s["rv"]
+                if rv["k"] == "use" and rv["op"].get("pl") is not None and not rv["op"]["pl"]["p"]:
+                    tgt = rv["op"]["pl"]["l"]
+                    continue
                 at = set()
-                sl._rvalue(s["rv"], at, set())
+                sl._rvalue(rv, at, set())
                 return at
     return set()
 
 
 def allowance(ctx, f, cfg, ro):
-    b = ro["entry"]
+    # the allowance method with its pure helpers inlined (a `threshold_for(balance)` helper is part of the formula); the helpers
+    # that write a cell - the refill/drain step - stay calls: they are the anchors of refresh-first and are judged by sync()
+    writers = [nb.path for nb in ro["bodies"] if nb.path != ro["entry"].path and _writes_cell(f, nb, ro, set())]
+    b = f.view(ro["entry"], keep=writers)
     ty = ro["type"]
     sl = Slicer(f, b)
     cls = make_classifier([("balance", ["call:load", F(ro, "balance")], []), ("warning", [F(ro, "warning")], [F(ro, "balance")])])
@@ -438,7 +447,9 @@ def sync(ctx, f, cfg, ro):
 
     def oname(t, atoms):
         n = callee_def(t).rsplit("::", 1)[-1]
-        return "cas.is_ok" if n in ("is_ok", "is_err") and any_atom(atoms, "call:compare_exchange") or n in ("is_ok", "is_err") and any(x.endswith(("compare_exchange", "compare_exchange_weak")) for x in atoms) else "call:" + n
+        if n in ("is_ok", "is_err") and (any_atom(atoms, "call:compare_exchange") or any(x.endswith(("compare_exchange", "compare_exchange_weak")) for x in atoms)):
+            return "cas." + n
+        return "call:" + n
     w = D.Walker(f, b, cls, opaque_name=oname)
     paths = [p for p in w.walk(0, lambda bb, env: None) if p["outcome"][0] == "return"]
 
@@ -476,8 +487,14 @@ def sync(ctx, f, cfg, ro):
         ctx.violation("C08.sync", "C08.sync|cas", "the cooled-down balance is not installed by one compare-and-swap from the balance read before: %s" % det, b.loc(), config=cfg)
     # on the CAS-success edge: drain with the rate, clamp, stamp := now
     rate_params = [x for x in (sl.of_operand(cas[0][1]["args"][2]) if cas else set()) if x.startswith("param:") and x != "param:self"]
-    succ_paths = [p for p in paths if any(bb in p["blocks"] for bb, _ in cas) and ("opaque", "cas.is_ok") in p["lits"]]
-    fail_paths = [p for p in paths if any(bb in p["blocks"] for bb, _ in cas) and ("not", ("opaque", "cas.is_ok")) in p["lits"]]
+    def _cas_won(p):
+        if ("opaque", "cas.is_ok") in p["lits"] or ("not", ("opaque", "cas.is_err")) in p["lits"]:
+            return True
+        if ("opaque", "cas.is_err") in p["lits"] or ("not", ("opaque", "cas.is_ok")) in p["lits"]:
+            return False
+        return None
+    succ_paths = [p for p in paths if any(bb in p["blocks"] for bb, _ in cas) and _cas_won(p) is True]
+    fail_paths = [p for p in paths if any(bb in p["blocks"] for bb, _ in cas) and _cas_won(p) is False]
     stamp_bbs = {bb for bb, t in st_stamp}
     drain_bbs = {bb for bb, t in drain}
     stamp_ok = bool(st_stamp) and all(any_atom(sl.of_operand(t["args"][1]), "call:curr_time_millis") and not _fld(sl.of_operand(t["args"][1]), ty) for bb, t in st_stamp)
